@@ -220,6 +220,7 @@ def shards(tier, seed):
     out = [("files", size, ci) for size in SIZES[tier] for ci in range(len(CHUNKS))]
     out += [("history", k) for k in range(len(HIST_SIZES))]
     out += [("pairs", iface) for iface in ("wsgi", "asgi")]
+    out += [("pairs", iface + ":oneobject") for iface in ("wsgi", "asgi", "zerocopy")]
     out.append(("defaultchunk",))
     out.append(("sameobject",))
     return out
@@ -233,18 +234,28 @@ def run_pairs(r, iface):
     all schedules with <=2 deviations of the two tasks' send events (ASGI); each response must equal the one served alone."""
     from ..core.explore import dfs
     t = Tree()
+    label = iface
+    iface, _, oneobject = iface.partition(":")
+    ext = {"http.response.zerocopysend": {}} if iface == "zerocopy" else None
+    iface = "asgi" if iface == "zerocopy" else iface
     try:
         fa, fb = t.file(10), t.file(11)
         m = __import__("baize.wsgi" if iface == "wsgi" else "baize.asgi", fromlist=["x"])
-        app = m.Files(t.dir)
-        reqs = [SV.AReq(path="/" + os.path.basename(f), headers=h) for f in (fa, fb) for h in PAIR_REQS]
+        if oneobject:
+            # one FileResponse object is the application of both requests (same file, different ranges, GET and HEAD)
+            app = m.FileResponse(fa, chunk_size=4)
+            reqs = [SV.AReq(method=meth, headers=h) for h in PAIR_REQS + [[("Range", "bytes=20-")], [("Range", "bytes=2-2")]] for meth in ("GET", "HEAD")]
+        else:
+            app = m.Files(t.dir)
+            reqs = [SV.AReq(path="/" + os.path.basename(f), headers=h) for f in (fa, fb) for h in PAIR_REQS]
+        scope = lambda q: SV.to_scope(q, extensions=ext) if ext else SV.to_scope(q)
         solo = {}
         for i, q in enumerate(reqs):
             random.seed(12345)
-            res = SV.run_wsgi(app, SV.to_environ(q)) if iface == "wsgi" else SV.run_asgi(app, SV.to_scope(q), SV.to_messages(q))
+            res = SV.run_wsgi(app, SV.to_environ(q)) if iface == "wsgi" else SV.run_asgi(app, scope(q), SV.to_messages(q))
             solo[i] = (res.status, res.header_multiset(), res.body, type(res.exc).__name__ if res.exc else None)
         for i, j in [(a, b) for a in range(len(reqs)) for b in range(len(reqs)) if a < b]:
-            w = {"pairs": iface, "a": reqs[i].describe(), "b": reqs[j].describe()}
+            w = {"pairs": label, "a": reqs[i].describe(), "b": reqs[j].describe()}
 
             def check(results, how):
                 r.count("evaluations")
@@ -254,7 +265,7 @@ def run_pairs(r, iface):
                     exp = solo[k]
                     # the multipart boundary is random per response: compare with boundaries normalised
                     if norm_boundary(got) != norm_boundary(exp):
-                        r.violation(f"pairs:{iface}", w, f"{iface} Files: request {reqs[k].path} {reqs[k].headers} served while {reqs[j if k == i else i].path} {reqs[j if k == i else i].headers} was in progress ({how}) differs from the same request served alone: {got!r:.200} vs {exp!r:.200}")
+                        r.violation(f"pairs:{label}", w, f"{label} {'one FileResponse object' if oneobject else 'Files'}: request {reqs[k].path} {reqs[k].headers} served while {reqs[j if k == i else i].path} {reqs[j if k == i else i].headers} was in progress ({how}) differs from the same request served alone: {got!r:.200} vs {exp!r:.200}")
             if iface == "wsgi":
                 for order in SV.merge_orders(4, 4):
                     random.seed(12345)
@@ -262,9 +273,9 @@ def run_pairs(r, iface):
             else:
                 def run(prefix):
                     random.seed(12345)
-                    return SV.run_asgi_pair(prefix, app, [SV.to_scope(reqs[i]), SV.to_scope(reqs[j])], [SV.to_messages(reqs[i]), SV.to_messages(reqs[j])])
+                    return SV.run_asgi_pair(prefix, app, [scope(reqs[i]), scope(reqs[j])], [SV.to_messages(reqs[i]), SV.to_messages(reqs[j])])
                 dfs(run, lambda x: check(x.obs, f"schedule {x.choices}"), bound=2)
-        r.sample({"pairs": iface, "requests": [q.describe() for q in reqs[:2]]})
+        r.sample({"pairs": label, "requests": [q.describe() for q in reqs[:2]]})
     finally:
         t.close()
 
